@@ -676,6 +676,72 @@ def decoration_oracle(ctx, rep):
         check_stdout(rep, dict(kind="binary", input_kind="diff", args=a, env={}, stdin_b64=base64.b64encode(c12.DIFF).decode()), out)
 
 
+CR_LINES = ["\x1b[33mwarning: thing\r\x1b[0m", "\x1b[33mwarning\x1b[0m\r", "plain\r", "\x1b]8;;http://example.com/x\x1b\\link\r\x1b]8;;\x1b\\",
+            "\x1b[1;31merror\x1b[m \x1b]8;;http://e.x/\x1b\\here\r\x1b]8;;\x1b\\\x1b[m", "a\rb\r\x1b[0m", "ab\rcd", "\r", "\r\x1b[m",
+            "\x1b[31m-removed\x1b[m\x1b[41m\r\x1b[m", "\x1b[32m+\x1b[m\x1b[32madded\r\x1b[m", "no cr at all \x1b[4mx\x1b[0m"]
+
+
+def corr_cr(ctx, rep, mdl):
+    """`ingest_line` (hook op machine.ingest, default Config) vs the model's CR step, on lines whose sequences close
+    between the CR and the LF; oracle: a balanced input line is still balanced as `raw_line`."""
+    rng = ctx.rng
+    lines = list(CR_LINES)
+    for _ in range(ctx.n(150, 3000)):
+        items = rand_items(rng, balanced=rng.random() < 0.85, maxn=6)
+        k = rng.randint(0, len(items))
+        items = items[:k] + [("t", "\r")] + items[k:]
+        lines.append("".join(x for _, x in items))
+    tails = [l[l.rfind("\r") + 1:] if "\r" in l else "" for l in lines]
+    widths = ctx.hook().ask(["style.truncate 0 x 1 t " + hx(t) for t in tails])
+    impl = ctx.hook().ask(["machine.ingest " + hx(l) for l in lines])
+    mreq = []
+    for l, w in zip(lines, widths):
+        tz = 1 if (w.startswith("ok ") and w.split(" ")[2] == "0") else 0
+        mreq.append("style.cr_step %d %s" % (tz, hx(l)))
+    model = mdl.ask(mreq) if mdl else [None] * len(lines)
+    for l, i, m in zip(lines, impl, model):
+        rep.case(key=("cr", l), nontrivial="\x1b" in l and "\r" in l, sample=dict(op="machine.ingest", line=l, impl=i))
+        rep.count("cr:" + ("esc-after-cr" if "\r\x1b" in l else "other"))
+        raw = i.split(" ")[1] if i.startswith("ok ") else None
+        if m is not None:
+            rep.corr_case("machine.ingest/cr_step", raw is not None and m == "ok " + raw, dict(line=l, impl=i, model=m))
+        if raw is not None and self_contained(l.replace("\r", "").encode()) and not self_contained(unhx(raw).replace(b"\r", b"")):
+            _viol(rep, "ingest:cr-step-drops-closing-sequences", "a line whose own sequences are balanced is no longer balanced after ingest_line",
+                  dict(op="machine.ingest", line=l, got=i))
+
+
+def cr_binary_oracle(ctx, rep):
+    """Balanced input sequences that close between CR and LF, on every raw path x modes."""
+    import base64
+    y, z, ln, lk = "\x1b[33m", "\x1b[0m", "\x1b]8;;http://example.com/x\x1b\\", "\x1b]8;;\x1b\\"
+    plain = ("%swarning: something\r%s\n" % (y, z) + "%sclick\r%s\n" % (ln, lk) + "%s%sboth\r%s%s\n" % (y, ln, lk, z)).encode()
+    git_crlf = ("\x1b[33mcommit 1111111111111111111111111111111111111111\r\x1b[m\n"
+                "Author: A <a@b>\r\n\r\n    msg\r\n\r\n"
+                "\x1b[1mdiff --git a/f.txt b/f.txt\x1b[m\n\x1b[1mindex 1111111..2222222 100644\x1b[m\n"
+                "\x1b[1m--- a/f.txt\x1b[m\n\x1b[1m+++ b/f.txt\x1b[m\n"
+                "\x1b[36m@@ -1,3 +1,3 @@\x1b[m \x1b[33mfn main() {\r\x1b[m\n"
+                " context\r\n"
+                "\x1b[31m-removed line\x1b[m\x1b[41m\r\x1b[m\n"
+                "\x1b[32m+\x1b[m\x1b[32madded line\r\x1b[m\n"
+                "\x1b[33mwarning inside the hunk\r\x1b[0m\n"
+                "%snot a hunk line\r%s\n" % (ln, lk)).encode()
+    inputs = [("plain", plain), ("git-crlf", git_crlf), ("plain-after-diff", git_crlf + plain)]
+    modes = [[], ["--side-by-side"], ["--color-only"], ["--line-numbers"], ["--max-line-length=12"],
+             ["--commit-style=raw", "--file-style=raw", "--hunk-header-style=raw"],
+             ["--minus-style=raw", "--plus-style=raw", "--zero-style=raw"],
+             ["--commit-style=raw", "--file-style=raw", "--hunk-header-style=raw", "--hunk-header-decoration-style=blue box ul",
+              "--side-by-side", "--hyperlinks"],
+             ["--inspect-raw-lines=false"], ["--raw"], ["--diff-so-fancy"]]
+    jobs = [(n, inp, ["--no-gitconfig", "--paging=never", "--width=50"] + m) for n, inp in inputs for m in modes]
+    results = parallel_map(lambda j: ctx.run_delta(j[2], j[1], timeout=20), jobs)
+    for (n, inp, a), (rc, out, err) in zip(jobs, results):
+        rep.case(key=("cr-binary", n, tuple(a)), nontrivial=True, sample=dict(op="cr-binary", input=n, args=a, rc=rc))
+        rep.count("cr-binary:" + n)
+        if rc != 0:
+            rep.count("cr-binary:rc=%s" % rc)
+        check_stdout(rep, dict(kind="binary", input_kind="cr:" + n, args=a, env={}, stdin_b64=base64.b64encode(inp).decode()), out)
+
+
 def run(ctx, rep):
     rep.rule = ("hook level: random lists of (style, text) / random lines built from text and escape-sequence items "
                 "(SGR, OSC 8, EL), random fill styles, widths 0-12, five truncation tails, 10 side-by-side configs; "
@@ -694,6 +760,8 @@ def run(ctx, rep):
     corr_pad(ctx, rep, mdl, gr)
     blobs = binary_oracle(ctx, rep)
     decoration_oracle(ctx, rep)
+    corr_cr(ctx, rep, mdl)
+    cr_binary_oracle(ctx, rep)
     corr_term(ctx, rep, mdl, o1 + o2 + o3 + blobs)
 
 
